@@ -96,6 +96,8 @@ def one_doc(args):
     from contracts import docgrammar as g, docs
     from mwlib.parser import advtree
     text, exp = g.document(seed, 6 + seed % 9)
+    if seed % 4 == 1:
+        text = text.rstrip("\n")       # a page whose last line has no line end
     try:
         tree = docs.parse(text, lang)
         advtree.build_advanced_tree(tree)
@@ -108,6 +110,9 @@ def one_doc(args):
     for (w, a), (_, b) in zip(exp, got):
         if g.canon(a) != g.canon(b):
             return seed, lang, f"word {w}: expected ancestors {a}, parsed {b}", text, len(exp)
+    res = g.markup_residue(tree)
+    if res:
+        return seed, lang, f"markup as text: {res[:4]} are visible text in the tree (the document writes words only)", text, len(exp)
     return seed, lang, None, text, len(exp)
 
 
@@ -131,27 +136,34 @@ def namespace_links_search():
     from contracts import c12, docs
     n = 0
     for lang, si in c12.sites():
-        names = set()
+        names = {}
         for v in si["namespaces"].values():
-            names.update(x for x in (v["*"], v.get("canonical")) if x)
-        names.update(a["*"] for a in si.get("namespacealiases", []))
-        for nm in sorted(names):
-            n += 1
-            text = f"[[:{nm}:Some page|label]]"
-            try:
-                tree = docs.parse(text, lang)
-            except Exception as e:  # noqa: BLE001
-                return n, {"detail": f"[{lang}] {text!r} raised {type(e).__name__}", "witness": {"site": lang, "wikitext": text}, "class": "raise"}
-            kinds = [c.__class__.__name__ for c in tree.allchildren() if c.__class__.__name__.endswith("Link")]
-            if any(k in ("InterwikiLink", "LangLink") for k in kinds) or not kinds:
-                return n, {"detail": f"[{lang}] {text!r}: link classes {kinds}; {nm!r} is a namespace of this site", "witness": {"site": lang, "wikitext": text}, "class": "namespace-link-as-interwiki"}
+            for x in (v["*"], v.get("canonical")):
+                if x:
+                    names[x] = v["id"]
+        for a in si.get("namespacealiases", []):
+            names[a["*"]] = a["id"]
+        for nm, nsid in sorted(names.items()):
+            for text in (f"[[:{nm}:Some page|label]]", f"[[{nm}:Some page|label]]"):
+                n += 1
+                try:
+                    tree = docs.parse(text, lang)
+                except Exception as e:  # noqa: BLE001
+                    return n, {"detail": f"[{lang}] {text!r} raised {type(e).__name__}", "witness": {"site": lang, "wikitext": text}, "class": "raise"}
+                links = [c for c in tree.allchildren() if c.__class__.__name__.endswith("Link")]
+                kinds = [c.__class__.__name__ for c in links]
+                if any(k in ("InterwikiLink", "LangLink") for k in kinds) or not kinds:
+                    return n, {"detail": f"[{lang}] {text!r}: link classes {kinds}; {nm!r} is a namespace of this site", "witness": {"site": lang, "wikitext": text}, "class": "namespace-link-as-interwiki"}
+                if links[0].ns != nsid:
+                    return n, {"detail": f"[{lang}] {text!r}: {kinds[0]} with ns={links[0].ns!r}; {nm!r} is namespace {nsid} of this site",
+                               "witness": {"site": lang, "wikitext": text}, "class": "namespace-number"}
     return n, None
 
 
 def bounded(chk):
     n0, f0 = namespace_links_search()
     chk.bounded_result("links_into_every_namespace_of_every_site", n0, n0, True,
-                       "for each of the 12 bundled sites, [[:<name>:Some page|label]] for every namespace name, canonical name and alias of the site: a link into that namespace, never an interwiki / language link",
+                       "for each of the 12 bundled sites, [[:<name>:Some page|label]] and [[<name>:Some page|label]] for every namespace name, canonical name and alias of the site: a link into that namespace (its number), never an interwiki / language link",
                        [f0] if f0 else [])
     n, words, fail = bounded_roundtrip(chk.tier, chk.seed)
     chk.bounded_result("grammar_roundtrip", n, n, False,
